@@ -8,7 +8,9 @@ RULE = ("seeded Arrays: rank 1-6, extents 1-7, every dtype and memory layout, ev
         "like 0.1, 1/3, 2^-k), stack arrays with full / partial / auto / too many labels, followed by 0-3 set_dim / "
         "set_dim_units / set_dim_name calls incl. invalid ones; observation after construction and after every setter with dim "
         "values compared BIT-EXACTLY with the Lean model (Float driver); non-trivial = some dims entry is a number or a pair, or a "
-        "setter is used; distinct by recipe hash")
+        "setter is used; labels are indexed after construction AND after every setter and the slice returned must carry the "
+        "stack's current calibrations (also compared per label with the model's get_slice); over-long label lists repeating kept "
+        "labels; distinct by recipe hash")
 
 
 def cases(tier, seed):
